@@ -192,14 +192,14 @@ def FR(fam, **kw):
 j_c02w = j_notes(r"ROUNDTRIP-FAIL\S*", "frame round trip failed", "Reader restores the input, clean EOF")
 j_c02r = j_notes(r"WRONG-CONTENT", "Reader did not deliver exactly the content", "content then io.EOF")
 j_c05 = j_and(j_orc("accept"), j_notes(r"$^", "", ""))
-j_c06 = j_notes(r"TRUNC-ACCEPTED|NOT-PREFIX", "truncated frame presented as complete / wrong bytes", "error other than io.EOF, delivered bytes a prefix")
+j_c06 = j_notes(r"TRUNC-ACCEPTED|NOT-PREFIX|DIFFERS-FROM-NEW-READER", "truncated frame presented as complete / wrong bytes", "error other than io.EOF, delivered bytes a prefix")
 j_c07 = j_and(j_notes(r"EXPECTED-\S+|ALLOC-EXCESS\S*", "Reader misbehaves on hostile input", "terminates; invalid frame / skip exactly 16 magics; bounded allocation"), j_orc("accept"))
 j_c09 = j_and(j_orc("frame"), j_notes(r"$^", "", ""))
 j_c15w = j_notes(r"SINK-FAILURE-NOT-REPORTED|SINK-NOT-PREFIX-OF-FAULT-FREE", "sink failure not reported faithfully", "the failure is returned at the latest by Close; the sink holds a prefix of the fault-free output")
 j_c15r = j_notes(r"TRUNC-ACCEPTED|NOT-PREFIX|WRONG-CONTENT|EXPECTED-\S+", "source failure / fragmentation mishandled", "the injected error, prefix delivered; fragmentation irrelevant")
 j_c16 = j_c02r
 j_c17w = j_notes(r"SECOND-CLOSE-EMITS|FLUSH-PREFIX-FAIL|WRITE-AFTER-CLOSE-ACCEPTED|DIFFERS-FROM-FRESH-WRITER|ROUNDTRIP-FAIL\S*", "Writer lifecycle broken", "reference model; a reused Writer emits what a new one with the same options emits")
-j_c17r = j_notes(r"READ-AFTER-EOF-CONSUMES|WRONG-CONTENT", "Reader lifecycle broken", "reference model")
+j_c17r = j_notes(r"READ-AFTER-EOF-CONSUMES|WRONG-CONTENT|DIFFERS-FROM-NEW-READER", "Reader lifecycle broken", "reference model; after Reset a Reader answers every call as a new one does")
 
 
 def T(mod, *names, kind="full", ns=None):
